@@ -18,7 +18,7 @@ type zzEntry15 struct {
 
 // zzTree15 declares a source directory "d" with E entries (each a sub-directory or a file of 0..S symbolic bytes).
 func zzTree15(sroot string) ([]*sourceFile, []zzEntry15) {
-	names := []string{"a", "b", "c", "e", "f"}
+	names := []string{"a", "b..c", "c", "e", "f"} // "b..c": an ordinary name that merely contains two dots
 	verifFSAddDir(sroot)
 	verifFSAddDir(sroot + "/d")
 	files := []*sourceFile{{PathID: 0, AbsPath: sroot + "/d", RelPath: []string{"d"}, IsDir: true}}
